@@ -65,7 +65,7 @@ def req_shape(ctx):
 
 
 def req_times(ctx):
-    """row times strictly increasing and covering every recorded time"""
+    """row times strictly increasing"""
     st = ctx.st
     times = ctx.local("unique_tick_times")
     nt = ctx.list_len(times)
@@ -77,8 +77,7 @@ def req_times(ctx):
             fs.append(z3.Implies(k < nt, T[k2] < T[k]))
     for a, (ent, vals, n, ts, items) in enumerate(es):
         fs.append(RID(vals) != RID(times.term))
-        for j in range(NV):
-            fs.append(z3.Implies(z3.And(a < ne, j < n), z3.Or([z3.And(k < nt, T[k] == ts[j]) for k in range(NT)])))
+    # (row times need not coincide with recorded times: the sample-and-hold rule is demanded at ANY increasing row times)
     return z3.And(fs)
 
 
@@ -123,7 +122,7 @@ write_data_rows = Contract(
     requires=[("shape", req_shape), ("times", req_times)],
     loops={"for tick_time in unique_tick_times": LoopSpec(unroll=NT), "for entry in plot_log.entries.values()": LoopSpec(unroll=NE),
            "while len(entry.values) >= 2 and tick_time >= entry.values[1].tick_time": LoopSpec(unroll=NV)},
-    options={"qf": True})
+    options={"qf": True, "default_unroll": NV})
 
 get_tick_times = Contract(
     target=G + "_get_tick_times", types=TYPES, raises={}, modifies={},
